@@ -11,5 +11,6 @@ CONSTANTS
   MaxB = 16
   MaxPa = 0
   TRem = {}
+  FixedPlan = 0
 INVARIANTS Inv Refines LookupOK ChkOK CapacityOK Bounded
 CHECK_DEADLOCK FALSE
